@@ -80,7 +80,14 @@ def age_worker(job):
                         tests.append([kind, sg + str(n)])
                         specs.append((kind, sg + str(n)))
             args = ["find", "d", "-mindepth", "1", "-sorted"] + lbl.label_args(tests)
-            res = common.run_find_inproc([("c", args, now)], sb, sb)["c"]
+            both = common.run_find_inproc([("c", args, now), ("t", args + [",", "-daystart"], now)], sb, sb)
+            res = both["c"]
+            # -daystart changes the reference instant only for the tests written AFTER it: put at the very end it changes nothing
+            st.inc("runs_with_a_trailing_daystart")
+            if both["t"].out != res.out or both["t"].code != res.code:
+                st.violate("wrong-age-test", None, {"problem": "a -daystart at the end of the expression changed the answers of the tests before it",
+                                                    "args": args + [",", "-daystart"], "without": res.out[:300], "with": both["t"].out[:300]},
+                           {"args": args + [",", "-daystart"], "now_ns": now})
             rp = {"args": args, "now_ns": now, "files": {f: {"atime_ns": lst[f].st_atime_ns, "mtime_ns": lst[f].st_mtime_ns, "ctime_ns": lst[f].st_ctime_ns}
                                                             for f in files}}
             st.inc("runs")
@@ -115,6 +122,59 @@ def age_worker(job):
                                                             "find": f in got, "timestamp_kind": x}, rp)
             if run % 9 == 0:
                 st.sample({"now_ns": now, "tests": specs[:4], "ages_m_ns": [now - lst[f].st_mtime_ns for f in files[:4]]})
+            common.force_rmtree(sb)
+    finally:
+        common.force_rmtree(base)
+    return st
+
+
+def clock_worker(job):
+    """'now' is fixed when find starts: the same time test evaluated before and after a pause gives the same answer for the same
+    file, although the file's age crosses a minute boundary during the pause (real binary, real clock; the pause is an -exec sleep).
+    Also exactly one of -N, N, +N holds each time. A start-up delay that lets the boundary pass before find starts makes the run
+    uninformative (counted), never a violation."""
+    k, nruns, seed = job
+    st = Stats()
+    rng = common.rng_for(seed, "C15clock", k)
+    base = common.mkscratch("C15c%d" % k)
+    try:
+        for run in range(nruns):
+            sb = os.path.join(base, "c%d" % run)
+            os.makedirs(os.path.join(sb, "d"))
+            kind, x = rng.choice([("-mmin", "m"), ("-amin", "a")])
+            n = rng.choice([1, 2, 3])
+            files = ["d/f1", "d/f2"]
+            for f in files:
+                open(os.path.join(sb, f), "wb").close()
+            t0 = time.time_ns()
+            age = n * MIN - 3 * NS                                 # 3 s before the file becomes n minutes old
+            for f in files:
+                os.utime(os.path.join(sb, f), ns=((t0 - age, t0 - 5 * DAY) if x == "a" else (t0 - 5 * DAY, t0 - age)))
+
+            def triple(tag):
+                return ["(", kind, "-%d" % n, "-printf", tag + "L:%p\\0", ")", ",", "(", kind, str(n), "-printf", tag + "E:%p\\0", ")", ",",
+                        "(", kind, "+%d" % n, "-printf", tag + "M:%p\\0", ")"]
+            args = [common.FIND, "d", "-mindepth", "1", "-sorted"] + triple("1") + [",", "-exec", "sleep", "5", ";", ","] + triple("2")
+            rc, out, err, to = common.run_cmd(args, cwd=sb, env=common.clean_env(), timeout=120)
+            st.inc("evaluations")
+            st.inc("clock_runs")
+            rp = {"args": ["find"] + args[1:], "mtime_age_at_setup_ns": age}
+            recs = [r_.decode() for r_ in out.split(b"\0")[:-1]]
+            problems = []
+            for f in files:
+                before = [r_[1] for r_ in recs if r_.startswith("1") and r_.endswith(":" + f)]
+                after = [r_[1] for r_ in recs if r_.startswith("2") and r_.endswith(":" + f)]
+                if len(before) != 1 or len(after) != 1:
+                    problems.append("%s: forms true before the pause %r, after %r (exactly one of -N, N, +N each time)" % (f, before, after))
+                elif before != after:
+                    problems.append("%s: %s answered %r before the pause and %r after it - the reference instant moved" % (f, kind, before[0], after[0]))
+            st.add("distinct", (kind, n))
+            if recs and any(r_.startswith("1L") for r_ in recs):
+                st.inc("clock_runs_in_which_the_age_crossed_the_boundary_during_the_pause")
+            else:
+                st.inc("clock_runs_uninformative(started too late)")
+            if rc != 0 or to or problems:
+                st.violate("wrong-age-test", None, {"args": ["find"] + args[1:], "problems": problems or ["exit %r %r" % (rc, err[-200:])], "records": recs}, rp)
             common.force_rmtree(sb)
     finally:
         common.force_rmtree(base)
@@ -271,6 +331,8 @@ def run(ctx):
     ctx.pmap(age_worker, [(k, n // nw, ctx.seed) for k in range(nw)])
     n2 = ctx.scale(160, 24000)
     ctx.pmap(newer_worker, [(k, n2 // nw, ctx.seed) for k in range(nw)])
+    ctx.pmap(clock_worker, [(k, 1 if ctx.quick else 12, ctx.seed) for k in range(nw)])
+    ctx.require("clock_runs_in_which_the_age_crossed_the_boundary_during_the_pause", 1)
     for key in ("kind:-atime", "kind:-ctime", "kind:-mmin", "kind:-cmin", "boundary_evaluations", "runs_with_ctime_boundary", "xy:ac", "xy:ca",
                 "xy:cc", "xy:mm", "evaluations_within_1ns", "discriminating_evaluations"):
         ctx.require(key, 5)
